@@ -203,11 +203,8 @@ def compare_networks(res, case, got, exp, desc):
         sub = "immittance_value" if ne[0] in ("passive", "short", "open") and not ckind.endswith("source") else \
             ("off_frequency_short_open" if ne[0] in ("short", "open") else "source_value_at_w")
         bump(res["hits"], sub + ":" + ckind)
-        if ckind.startswith("periodic_") and ne[0] == "passive" and ng[0] in ("short", "open"):
-            # a lossy periodic source at a harmonic whose amplitude is zero: the statement does not say
-            # whether that is "its own frequency" (internal immittance kept) or "another frequency" (short/open)
-            bump(res["skipped"], "zero_harmonic_of_lossy_periodic_source_either_reading_accepted")
-            continue
+        # (a lossy periodic source at a harmonic n*w0 whose amplitude is zero is still "at its own frequency": a zero-valued source
+        # that keeps its internal immittance - the reading C02 and C09 need for their single-frequency phasors)
         if ne[0] != ng[0] or not close(ne[1], ng[1]) or not close(ne[2], ng[2], 1e-9):
             add_violation(res, sub, case, list(ne), list(ng), "branch of %s (%s) is not the component's value at w" % (eb[3], ckind), kind="wrong_value:" + ckind)
             ok = False
